@@ -667,6 +667,8 @@ def shards(tier, seed):
                     # quick: the first range and one rotated with the seed; thorough: all of them (the native side
                     # condition below walks every deviation in both tiers)
                     ranges = [ranges[0], ranges[1 + rng.randrange(len(ranges) - 1)]]
+                if not thorough and key.endswith(('_zero', '_quoted')) and len(ranges) > 1:
+                    ranges = [ranges[rng.randrange(len(ranges))]]      # second value of a type: one range per axis
             windows = [None]
             if axis == 'unknown':
                 # the name character of the added element: windows of 8 alphanumerics (quick: one, rotated)
